@@ -75,52 +75,52 @@ type Cfg struct {
 
 // Obs is what the observer and the drivers recorded.
 type Obs struct {
-	CreateErr    error
-	Built        bool
-	ObserverRan  bool
-	CacheAtRead  string
-	CacheErr     string
-	ServerAtRead string
-	ReadyAtRead  bool
-	DoneAtRead   bool
-	ErrAtRead    string
-	NodeCache    map[string]string
-	NodeReady    map[string]bool
-	NodeDone     map[string]bool
-	Lists        int
-	Watches      int
-	WatchRVs     []string
-	ListRVs      []int
-	ServerRV     int
-	MaxFlight    int
-	ReadyList    string // Cache().List() read by an observer the moment Ready() closed
-	ReadyLists   int    // completed List calls at that moment
-	ReadySeen    bool
-	CloseReturned int
-	ClosesIssued  int
+	CreateErr      error
+	Built          bool
+	ObserverRan    bool
+	CacheAtRead    string
+	CacheErr       string
+	ServerAtRead   string
+	ReadyAtRead    bool
+	DoneAtRead     bool
+	ErrAtRead      string
+	NodeCache      map[string]string
+	NodeReady      map[string]bool
+	NodeDone       map[string]bool
+	Lists          int
+	Watches        int
+	WatchRVs       []string
+	ListRVs        []int
+	ServerRV       int
+	MaxFlight      int
+	ReadyList      string // Cache().List() read by an observer the moment Ready() closed
+	ReadyLists     int    // completed List calls at that moment
+	ReadySeen      bool
+	CloseReturned  int
+	ClosesIssued   int
 	DoneAfterClose bool
-	ErrAfterDone  string
-	ErrNil        bool
-	Finished      bool
-	Clock         int64
-	PostAPI       []string // results of API calls issued after Done
-	RaceAPI       []string // results of API calls racing with shutdown
-	RaceDone      bool
-	LeafClosed    map[string]bool // leaf path -> its Events() channel was closed (consumer ran to the end)
-	LeafEvents    map[string][]string
+	ErrAfterDone   string
+	ErrNil         bool
+	Finished       bool
+	Clock          int64
+	PostAPI        []string // results of API calls issued after Done
+	RaceAPI        []string // results of API calls racing with shutdown
+	RaceDone       bool
+	LeafClosed     map[string]bool // leaf path -> its Events() channel was closed (consumer ran to the end)
+	LeafEvents     map[string][]string
 	ProbeDelivered map[string]bool
-	HistDone      bool
+	HistDone       bool
 	HistDoneAtRead bool // the whole server history had been applied when the observer looked
 }
 
 type Inst struct {
-	Converged int64 // oracle bookkeeping: the convergence premise held in this execution
-	C     Cfg
-	Srv   *fakeapi.Server
-	Ctrl  kcache.Controller
-	Nodes []*hx.Node
-	O     Obs
-	cancel context.CancelFunc
+	Converged    int64 // oracle bookkeeping: the convergence premise held in this execution
+	C            Cfg
+	Srv          *fakeapi.Server
+	Ctrl         kcache.Controller
+	Nodes        []*hx.Node
+	O            Obs
+	cancel       context.CancelFunc
 	serverAtRead []metav1.Object
 }
 
